@@ -266,6 +266,7 @@ fn main() {
         }
     };
 
+    let shutdown_after_listen = shutdown.clone();
     #[allow(clippy::await_holding_lock)]
     let interrupt_task = async move {
         tokio::signal::ctrl_c().await.unwrap();
@@ -273,10 +274,16 @@ fn main() {
         shutdown.lock().unwrap().completion().await
     };
 
+    #[allow(clippy::await_holding_lock)]
     let exit_code = rt.block_on(async move {
         tokio::select! {
             listen_result = listen_task => match listen_result {
-                Ok(()) => 0,
+                Ok(()) => {
+                    // The listener returns as soon as a shutdown is submitted, while the
+                    // sessions are still winding down: wait for them too
+                    shutdown_after_listen.lock().unwrap().completion().await;
+                    0
+                }
                 Err(e) => {
                     error!("Error while listening IO events: {}", e);
                     1
